@@ -214,7 +214,8 @@ func runWp(cfg wpCfg) (*wpRun, map[string]int) {
 					k := []byte(fmt.Sprintf("k%06d", id))
 					keys = [][]byte{k}
 					wr.byKey.Store(string(k), id)
-					wr.log(wpEvent{kind: "call", w: id, a: uint64(merge), b: b2u(wo.Sync), c: 1})
+					// b: the Sync flag the write path uses (wo.Sync && !o.NoSync); s: the kind of call, for the Lean model
+					wr.log(wpEvent{kind: "call", w: id, a: uint64(merge), b: b2u(wo.Sync && !cfg.Opts.NoSync), c: 1, s: "put"})
 					err = db.Put(k, val, wo)
 				} else {
 					b := new(leveldb.Batch)
@@ -235,7 +236,7 @@ func runWp(cfg wpCfg) (*wpRun, map[string]int) {
 					viaTx = ilen > cfg.Opts.WriteBuffer && !cfg.Opts.DisableLargeBatchTx
 					if !viaTx {
 						wr.byBat.Store(b, id)
-						wr.log(wpEvent{kind: "call", w: id, a: uint64(merge), b: b2u(wo.Sync), c: uint64(b.Len())})
+						wr.log(wpEvent{kind: "call", w: id, a: uint64(merge), b: b2u(wo.Sync && !cfg.Opts.NoSync), c: uint64(b.Len()), s: "write"})
 					}
 					before, blen := append([]byte(nil), b.Dump()...), b.Len()
 					err = db.Write(b, wo)
@@ -427,13 +428,16 @@ func wpLines(c *Ctx, evs []wpEvent) {
 	for _, e := range evs {
 		switch e.kind {
 		case "call":
-			c.Lean(fmt.Sprintf("wp call %d %d", e.w, e.a), "ok")
+			// merge flag, effective Sync flag, number of records, Put/Delete or Write(batch): the validator replays
+			// the merge loop of the model on these and compares what the group carries (see "group")
+			c.Lean(fmt.Sprintf("wp call %d %d %d %d %s", e.w, e.a, e.b, e.c, e.s), "ok")
 		case "lock", "leader", "accept", "overflow":
 			c.Lean(fmt.Sprintf("wp %s %d", e.kind, e.w), "ok")
 		case "flushed":
 			c.Lean(fmt.Sprintf("wp flushed %d", e.a), "ok")
 		case "group":
-			c.Lean(fmt.Sprintf("wp group %d %d %d", e.a, e.b, e.c), "ok")
+			// record count, batch count and sync flag of the group must be the model's (gn, |batches|, gsync)
+			c.Lean(fmt.Sprintf("wp group %d %d %d %d", e.a, e.b, e.c, b2u(e.s == "sync")), "ok")
 		case "publish":
 			c.Lean(fmt.Sprintf("wp publish %d", e.a), "ok")
 		case "applied", "ack", "handoff", "release":
